@@ -379,9 +379,10 @@ def c11(c):
         bdfnum_stream(c)
         generic_monitor(c, "protocol_check", ["protocol-check", c.seed, 200 if c.tier == "quick" else 4000], "pr")
         generic_monitor(c, "options_check", ["options-check", c.seed, 60 if c.tier == "quick" else 1500], "op")
+        generic_monitor(c, "interval_check", ["interval-check", c.seed, 60 if c.tier == "quick" else 1500], "iv")
     only_keys(c, ("c11",))
     c.partial = ["|h| ≤ h_max for the *first* step relies on hinit's min(…, hmax) (translated, co-simulated; no separate theorem)",
-                 "the 1% stretch of the final step: monitor only", "Radau/BDF: monitor only"]
+                 "Radau: |h| ≤ h_max is monitored only (BDF's limiter: BdfCtl.limits_le_hmax)"]
 
 
 C12_THEOREMS = ["Ctl.afterCb_passive", "Ctl.hFinish_passive", "Ctl.hAccepted_passive", "Ctl.hIter_passive", "Ctl.hLoop_passive",
